@@ -52,7 +52,6 @@ inductive Err where
   | no         -- *imap.Error of type NO
   | bad        -- *imap.Error of type BAD
   | internal   -- any other error ("Internal server error")
-  | silent     -- Legacy only: a handler that answers for itself returned nil without answering
 deriving DecidableEq, Repr
 
 def Err.cls : Err → Cls
@@ -126,6 +125,7 @@ structure S where
   crlf : Bool := false
   tail : Bytes := []
   listDepth : Nat := 0
+  mute : Bool := false           -- Legacy only: a handler that answers for itself returned nil without answering
   st : St := .notAuth
   evs : List Event := []         -- reversed
   roles : List Role := []        -- reversed
@@ -715,7 +715,7 @@ def appendLiteral (cfg : Cfg) (m : Bytes) (s : S) : Option Err × S :=
         else
           let s := s.emit (call .append [m, v])
           match s.expectCRLF with
-          | (false, s) => if cfg.fx.append then (s.err, s) else (some .silent, s)
+          | (false, s) => if cfg.fx.append then (s.err, s) else (none, { s with mute := true })
           | (true, s) => (none, s)
 
 /-- handleAppend (append.go) -/
@@ -874,7 +874,8 @@ def handlerOf (cfg : Cfg) (name : Bytes) : Handler :=
 /-! ## Conn.readCommand and Conn.serve -/
 
 /-- a fresh decoder for every command (conn.go:169) -/
-def S.reset (s : S) : S := { s with err := none, lit := none, crlf := false, tail := [], listDepth := 0 }
+def S.reset (s : S) : S :=
+  { s with err := none, lit := none, crlf := false, tail := [], listDepth := 0, mute := false }
 
 /-- `UID` SP sub-command (conn.go:193-201) -/
 def uidName (s : S) : Option Bytes × S :=
@@ -920,7 +921,7 @@ def finishCommand (cfg : Cfg) (tag : Bytes) (byeUnknown : Bool) (e : Option Err)
   let s := s.discardLine cfg.fx
   let byeLit := cfg.fx.close && s.unreadNonSync && s.st != .logout
   let s := if byeLit then { s with st := .logout } else s
-  let s := if e == some .silent then s
+  let s := if !cfg.fx.append && s.mute then s          -- Legacy: APPEND returned nil, nothing is written
            else s.emit (.tagged tag (match e with | none => .ok | some e => e.cls))
   let s := if byeLit then s.emit .bye else s
   if byeUnknown then s.emit .bye else s
